@@ -94,8 +94,8 @@ class Bases:
             for m in range(1, maxm + 1):
                 for nm, want in (("flegendre", P), ("fchebyshev", T), ("fpoly", [x ** k for k in range(maxm + 2)])):
                     ok = True
-                    for j in range(15):
-                        xv = -1.0 + j / 7.0
+                    for j in range(18):
+                        xv = -1.0 + j / 7.0 if j < 15 else (0, 1, -1)[j - 15]       # also plain Python integers inside [-1, 1]
                         out = fns[nm](xv, m)
                         ok = ok and out.shape == (m, 1) and all(abs(float(out[k, 0]) - float(want[k].subs(x, xv))) < 1e-9 for k in range(m))
                     ob("%s_scalar_form[m=%d]" % (nm, m), ok, "scalar form differs from the textbook value", None if ok else witness(nm, m, True))
@@ -326,6 +326,8 @@ class TraceSetJob(_NumericJob):
             jump = None
             if rng.random() < 0.5:
                 lo = x0 + rng.uniform(0.2, 0.5) * nx
+                if x0 <= 0.0 < x0 + nx - 2 and rng.random() < 0.6:
+                    lo = 0.0                        # a jump that starts exactly at position 0.0 is a jump like any other
                 jump = (lo, lo + rng.uniform(0.5, 3.0), rng.uniform(-1.5, 1.5))
             yield dict(xpos=xpos, ypos=ypos, iv=iv, func=func, nc=nc, jump=jump, explicit=rng.random() < 0.4, use_iv=rng.random() < 0.7,
                        inp=dict(rep=rep, nTrace=nt, nx=nx, func=func, ncoeff=nc, jump=jump is not None))
